@@ -21,3 +21,27 @@ Definition transfer (alias : bool) (src dst : Z) (h : heap) : heap * Z :=
 (* later writes by one side *)
 Definition apply_writes (ws : list (Z * Z)) (h : heap) : heap :=
   fold_left (fun h p => hwrite (fst p) (snd p) h) ws h.
+
+(* ---- metadata handed to SetHeader / SendHeader / SetTrailer ---- *)
+(* The handler's metadata.MD maps live in a heap too; the stream keeps, for its header and for its
+   trailer, either a map of its own (metadata.Join allocates and copies the value slices) or, in the
+   [alias] variant, the handler's map itself when nothing was set before.  Maps are association
+   lists (key index, value) as in Stream.v. *)
+Definition mdv := list (Z * Z).
+Definition mheap := list (Z * mdv).
+
+Fixpoint mread (a : Z) (h : mheap) : mdv :=
+  match h with [] => [] | (b, v) :: r => if b =? a then v else mread a r end.
+Definition mwrite (a : Z) (v : mdv) (h : mheap) : mheap := (a, v) :: h.
+Definition apply_mwrites (ws : list (Z * mdv)) (h : mheap) : mheap :=
+  fold_left (fun h p => mwrite (fst p) (snd p) h) ws h.
+
+Inductive mstore := MVal (v : mdv) | MRef (a : Z).
+Definition mget (t : mstore) (h : mheap) : mdv := match t with MVal v => v | MRef a => mread a h end.
+
+(* s.trailer = metadata.Join(s.trailer, md)  (likewise s.header), md being the handler's map at [a] *)
+Definition md_set (alias : bool) (cur : option mstore) (a : Z) (h : mheap) : mstore :=
+  match cur with
+  | None => if alias then MRef a else MVal (mread a h)
+  | Some t => MVal (mget t h ++ mread a h)
+  end.
